@@ -645,6 +645,8 @@ class Engine:
                 if setter is None: raise Unsupported(f'assignment through computed field {node.attr}')
                 return self.assign(node.value, setter(base, val), st)
             if fld is None: raise Unsupported(f'assignment to attribute {node.attr} of {base.t}')
+            ft_ = base.t.ftype(fld)
+            if val.t is TNone and isinstance(ft_, TVal) and ft_.name in self.w.none_consts: val = Sym(ft_, self.w.none_consts[ft_.name])          # obj.attr = None for an Optional[value] field
             if base.t.ftype(fld) != val.t: raise Unsupported(f'field {fld}: {val.t} assigned, {base.t.ftype(fld)} declared')
             return self.assign(node.value, base.t.update(base, fld, val), st)
         if isinstance(node, ast.Subscript):
@@ -708,6 +710,11 @@ class Engine:
                 first = self.ev(val_node.values[0], st)
                 if first.t is TNone: val_node = val_node.values[1]
                 elif isinstance(first.t, (TSet, TBag, TSeq)) or is_map(first.t): val_node = val_node.values[0]
+            elif isinstance(val_node, ast.BoolOp) and isinstance(val_node.op, ast.Or) and len(val_node.values) == 2 and isinstance(val_node.values[1], ast.Call):
+                # x = given or Cls(): None gives the new object; an object of a class without __bool__ / __len__ (World.always_truthy names them) is kept
+                first = self.ev(val_node.values[0], st)
+                if first.t is TNone: val_node = val_node.values[1]
+                elif isinstance(first.t, TRec) and first.t.name in getattr(self.w, 'always_truthy', ()): val_node = val_node.values[0]
             v = self.empty_literal(val_node, s.targets[0], st) or self.ev(val_node, st)
             t0 = s.targets[0]
             if v.t is TNone and isinstance(t0, ast.Name) and t0.id in self.cur.locals:
